@@ -635,11 +635,53 @@ def run(ctx):
         return of_expr(e, pre, W)
 
     loops = []
-    for st in _body(nt):
+    lists = {}   # local -> [(count Poly, value Poly)]: sizes precomputed into a list (`[share] * (n - 1)` + the remainder)
+    positive = {Poly.sym(p_) for p_ in params if p_ in ("rows", "cols")}
+
+    def list_value(e):
+        if isinstance(e, ast.Name) and e.id in lists:
+            return list(lists[e.id])
+        if isinstance(e, ast.List) and not any(isinstance(x, ast.Starred) for x in e.elts):
+            return [(Poly.const(1), pre_expr(x)) for x in e.elts]
+        if isinstance(e, ast.ListComp) and len(e.generators) == 1 and not e.generators[0].ifs and isinstance(e.generators[0].iter, ast.Call) \
+                and dotted(e.generators[0].iter.func) == "range" and len(e.generators[0].iter.args) == 1 \
+                and not any(isinstance(x, ast.Name) and x.id == getattr(e.generators[0].target, "id", None) for x in ast.walk(e.elt)):
+            return [(of_expr(e.generators[0].iter.args[0], pre, W), pre_expr(e.elt))]
+        if isinstance(e, ast.BinOp) and isinstance(e.op, ast.Mult) and isinstance(e.left, ast.List) and len(e.left.elts) == 1:
+            return [(of_expr(e.right, pre, W), pre_expr(e.left.elts[0]))]
+        if isinstance(e, ast.BinOp) and isinstance(e.op, ast.Add):
+            l_, r_ = list_value(e.left), list_value(e.right)
+            return l_ + r_ if l_ is not None and r_ is not None else None
+        return None
+
+    def list_stmt(st):
+        """appends: `L.append(E)`, also under `if <rows|cols> > 0:` (the counts are positive: a precondition of the property)"""
+        if isinstance(st, ast.Expr) and isinstance(st.value, ast.Call) and isinstance(st.value.func, ast.Attribute) and st.value.func.attr == "append" \
+                and dotted(st.value.func.value) in lists and len(st.value.args) == 1:
+            lists[dotted(st.value.func.value)].append((Poly.const(1), pre_expr(st.value.args[0])))
+            return True
+        if isinstance(st, ast.If) and not st.orelse and isinstance(st.test, ast.Compare) and len(st.test.ops) == 1:
+            l_, r_ = of_expr(st.test.left, pre, W), of_expr(st.test.comparators[0], pre, W)
+            op_ = st.test.ops[0]
+            holds = (isinstance(op_, ast.Gt) and l_ in positive and r_ == Poly.const(0)) or (isinstance(op_, ast.GtE) and l_ in positive and r_ == Poly.const(1))
+            if holds and all(list_stmt(x) for x in st.body):
+                ctx.assumptions.append("R14.5: `%s` holds (rows and cols of a new table are positive)" % ast.unparse(st.test))
+                return True
+        return False
+
+    ntx = _expand(prog, nt, local_only=True)   # a size-computing helper is read in place
+    for st in [s_ for s_ in ntx.body if not (isinstance(s_, ast.Expr) and isinstance(s_.value, ast.Constant))]:
+        if list_stmt(st):
+            continue
         if isinstance(st, ast.Assign) and len(st.targets) == 1:
             t = st.targets[0]
             if isinstance(t, ast.Name):
-                if isinstance(st.value, (ast.BinOp, ast.Name, ast.Constant)):
+                lv = list_value(st.value)
+                if lv is not None and not isinstance(st.value, ast.Name):
+                    lists[t.id] = lv
+                elif isinstance(st.value, ast.Name) and st.value.id in lists:
+                    lists[t.id] = lists[st.value.id]
+                elif isinstance(st.value, (ast.BinOp, ast.Name, ast.Constant)):
                     pre[t.id] = pre_expr(st.value)
             elif isinstance(t, ast.Tuple) and len(t.elts) == 2 and isinstance(st.value, ast.Call) and dotted(st.value.func) == "divmod" \
                     and len(st.value.args) == 2 and all(isinstance(x, ast.Name) for x in t.elts):
@@ -655,6 +697,20 @@ def run(ctx):
         symbolically twice - for an ordinary iteration (`i == n-1` false) and for the last one (true); locals assigned in
         the body are tracked (straight-line assignments, `if i == n-1:` blocks, conditional expressions on that test).
         total = (n-1) * ordinary + last.  Returns (n, total, call) or None when the loop has another shape."""
+        if isinstance(loop.iter, ast.Name) and loop.iter.id in lists and isinstance(loop.target, ast.Name):
+            # sizes taken from a precomputed list: total = sum(count_k * value_k), iterations = sum(count_k)
+            calls = [c for c in ast.walk(loop) if isinstance(c, ast.Call) and isinstance(c.func, ast.Attribute) and c.func.attr == addcall]
+            if len(calls) != 1 or any(isinstance(x, (ast.If, ast.Break, ast.Continue, ast.While)) for x in ast.walk(loop)):
+                return None
+            c = calls[0]
+            arg = next((k.value for k in c.keywords if k.arg == kw), None) or (c.args[0] if c.args else None)
+            if arg is None:
+                return None
+            n_, tot = Poly(), Poly()
+            for cnt_, val_ in lists[loop.iter.id]:
+                n_ = n_ + cnt_
+                tot = tot + cnt_ * of_expr(arg, dict(pre, **{loop.target.id: val_}), W)
+            return n_, tot, c
         if not (isinstance(loop.iter, ast.Call) and dotted(loop.iter.func) == "range" and len(loop.iter.args) == 1
                 and isinstance(loop.target, ast.Name)):
             return None
@@ -749,6 +805,14 @@ def run(ctx):
                 good = len(calls) == 1 and not conds
             if isinstance(st, ast.For) and isinstance(st.iter, ast.Call) and dotted(st.iter.func) == "range":
                 cells_seen = True
+            if isinstance(st, ast.For) and isinstance(st.iter, ast.Name) and st.iter.id in lists:
+                cells_seen = True
+                n_cells = Poly()
+                for cnt_, _v in lists[st.iter.id]:
+                    n_cells = n_cells + cnt_
+                calls = [c for c in ast.walk(st) if isinstance(c, ast.Call) and dotted(c.func) == "%s.add_tc" % trvar]
+                conds = [c for c in ast.walk(st) if isinstance(c, (ast.If, ast.Break, ast.Continue))]
+                good = n_cells == Poly.sym("cols") and len(calls) == 1 and not conds
     if "add_tr" not in found or (not good and not cells_seen):
         ctx.error("new_tbl:add_tc", "the loop giving each row its cells is not recognised")
     elif good:
